@@ -508,6 +508,10 @@ func (fr *Frame) convert(st *State, x Value, from, to types.Type) Value {
 		if tt.Info()&types.IsString != 0 {
 			switch xv := x.(type) {
 			case Slice:
+				if !isByte(xv.Elem) {
+					// string([]rune): the UTF-8 encoding of the code points, unknown here
+					return Scalar{Var(st.eng.fresh("runestr"), SString)}
+				}
 				s, err := st.sliceBytes(xv)
 				if err != nil {
 					fail("convert []byte->string: %v", err)
@@ -549,6 +553,18 @@ func (fr *Frame) convert(st *State, x Value, from, to types.Type) Value {
 		return xs
 	case *types.Slice:
 		if xs, ok := x.(Scalar); ok && xs.T.Sort.Name == "String" {
+			if !isByte(tt.Elem()) {
+				// []rune(s): one element per code point, not per byte - a fresh sequence whose
+				// length is runecount(s): between ceil(len/4) and len
+				n := UF("runecount", SInt, xs.T)
+				ln := StrLen(xs.T)
+				st.assume(And(Le(n, ln), Le(ln, Mul(Int(4), n)), Le(Int(0), n)))
+				z := Var(st.eng.fresh("runes"), SSeqInt)
+				st.assume(Eq(mk("seq.len", SInt, z), n))
+				h := st.eng.alloc()
+				st.heap[h.String()] = Cell{V: Array{Elem: tt.Elem(), Seq: z}}
+				return Slice{Back: h, Off: Int(0), Len: n, Cap: n, Elem: tt.Elem()}
+			}
 			return st.newByteSlice(xs.T, tt.Elem())
 		}
 		return x
